@@ -9,10 +9,10 @@ import (
 
 func init() {
 	register(&propCheck{
-		id:    "C20",
-		level: "other",
+		id:          "C20",
+		level:       "other",
 		explanation: "Static necessary conditions of 'a digest depends only on the algorithm and the bytes': (H1) on every control-flow path of every method that writes into hashingAlgo.Hash the hasher is reset before the write or on every exit after it, error exits included — the history clause; (H1w) no other function touches that field; (H2) the value returned is hex(Sum(nil)) of that same hasher and the reader copied is the caller's reader, unwrapped; (H3) the algorithm-name table maps every name to the standard constructor, unkeyed; (H4) file hashing hands the opened file of the requested path, unchanged, to the hasher. Decided on the SSA form of the current sources; nothing is executed. Not decided: equality with reference digests (value-level), chunking independence (hash.Hash contract).",
-		run:   runC20,
+		run:         runC20,
 		assumptions: []string{
 			"hash.Hash implementations honour their contract (Reset restores the initial state; Write never fails; chunking is irrelevant)",
 			"safeio.CopyDataWithContext copies every byte of the reader unless it returns an error (C09)",
